@@ -125,7 +125,7 @@ class Case:
 
 
 # ------------------------------------------------------------------ family 1: the printf engine
-ENGINE_FNS = {"sprintf_s": "vsn", "snprintf_s": "vsn", "vsnprintf_s": "vsn", "vsprintf_s": "vs",
+ENGINE_FNS = {"sprintf_s": "vs", "snprintf_s": "vsn", "vsnprintf_s": "vsn", "vsprintf_s": "vs",
               "printf_s": "stream", "fprintf_s": "stream", "vfprintf_s": "stream"}
 FLOATS = [("Lf", "L", "1.5"), ("LF", "L", "2.25"), ("Le", "L", "1.5"), ("LE", "L", "0.5"), ("Lg", "L", "1.5"), ("LG", "L", "3"),
           ("La", "L", "1.5"), ("LA", "L", "1"), ("a", "D", "1.5"), ("A", "D", "0.75")]
